@@ -110,6 +110,9 @@ func observe(c *pipe.Case, g *pipe.Got, ref []pipe.RefLine) {
 		o.Label(bytes.Contains(b, []byte("\r\n")), "has-CRLF")
 		o.Label(bytes.Contains(b, []byte("\n\n")) || bytes.HasPrefix(b, []byte("\n")), "has-empty-line")
 		o.Label(len(b) == 0, "empty-input")
+		for k := 1; k*pipe.ReadBuf <= len(b); k++ {
+			o.Label(b[k*pipe.ReadBuf-1] == '\n', "newline-is-last-byte-of-read-buffer")
+		}
 	}
 	o.Add("maxLines", maxLines)
 	if c.ViaReader && g != nil && c.Batch > 0 {
